@@ -142,7 +142,7 @@ def run(ctx, res):
         "theorems: the verified checkers (suff_dec, check_output, possible), and the fuelled model RaireAlgo.raire of "
         "the search itself (non-empty result => check_output accepts it; empty result <=> possible = false; for all "
         "inputs; tied to compute_raire_assertions output-for-output by Run_Raire.agree_algo on every run); NOT proved about "
-        "the model: sufficiency of the default fuel (exhaustion is reported as a disagreement)",
+        "the model: that the constant default_fuel suffices (termination itself is proved: some fuel suffices; exhaustion is reported as a disagreement)",
         "ballots are duplicate-free rankings with positions 0,1,2,... (what load_contests_from_raire builds); ballots "
         "with repeated positions or candidates outside the contest are outside the model",
     ]
